@@ -153,6 +153,14 @@ def findings():
           "(the Arnoldi basis is allocated in the operator's dtype; numpy emits a ComplexWarning) and returns a wrong complex solution; CG handles the same input correctly",
           gmres_complex_rhs, "solve(Dense([[2,1,0],[1,3,1],[0,1,4]]), [1+2j, 2-1j, 3j], GMRES(max_iters=3))")
 
+    def cg_c64_zero():
+        A = cola.PSD(ops.Dense(np.array([[4]], dtype=np.complex64)))
+        x = np.asarray(cola.linalg.solve(A, np.array([[2, 0]], dtype=np.complex64), cola.linalg.CG()))
+        return not np.allclose(x, [[0.5, 0.0]]), x.tolist()
+    probe("inv_cg_complex64_zero_rhs_nan", "solve(A, B, CG()) in complex64 returns NaN in every column of B that is zero (float32, float64 and complex128 return 0); "
+          "through Kronecker / BlockDiag factors and b @ inv(A) such columns arise by themselves", cg_c64_zero,
+          "solve(PSD(Dense([[4]], complex64)), [[2, 0]], CG())")
+
     def x0_vector():
         T3 = np.array([[2., 1., 0.], [1., 3., 1.], [0., 1., 4.]])
         b = np.array([1., 2., 3.])
@@ -406,6 +414,8 @@ def oracle(t, io, o, present):
         for a, b_ in (("res1", "res"), ("solve1", "solve")):
             if a in o and b_ in o and not np.abs(o[a] - o[b_][:, 0]).max() <= 1e-3 * max(1.0, np.abs(o[b_]).max()):
                 bad.append(a)
+        if bad and "TIterCG" in o["rty"] and single and any("nan" in b_ for b_ in bad) and "inv_cg_complex64_zero_rhs_nan" in present:
+            return bad, "inv_cg_complex64_zero_rhs_nan"
         if bad and "TIterGMRES" in o["rty"] and io.get("rhs_cplx") and "inv_gmres_complex_rhs_real_operator" in present:
             return bad, "inv_gmres_complex_rhs_real_operator"
         if bad and "TIterGMRES" in o["rty"]:
